@@ -75,7 +75,10 @@ def show(r, ctx=0):
         s = show(r[1], 2) + {'star': '*', 'plus': '+', 'opt': '?'}[k]
         return '(%s)' % s if ctx >= 3 else s
     if k == 'diff':
-        s = '%s # %s' % (show(r[1], 3), show(r[2], 3))
+        # `#` is left associative in lexgen's grammar: a chain is printed without parentheses on the left, so that the
+        # real parser's associativity is part of what is checked
+        left = show(r[1], 0) if r[1][0] == 'diff' else show(r[1], 3)
+        s = '%s # %s' % (left, show(r[2], 3))
         return '(%s)' % s if ctx >= 3 else s
     if k == 'cat':
         s = '%s %s' % (show(r[1], 1), show(r[2], 1))
